@@ -127,6 +127,7 @@ var c06Quick = []Mix{
 	{Gen: "corpus"}, {Gen: "bytes"}, {Gen: "trunc"},
 	{Gen: "atoms", Dict: "sqlcore", K: 3},
 	{Gen: "atoms", Dict: "sqledge", K: 4},
+	{Gen: "atoms", Dict: "sqlmid", K: 4},
 	{Gen: "atoms", Dict: "sqlext", K: 2},
 	{Gen: "seq", Dict: "sqlext", N: 300000},
 	{Gen: "mut", Dict: "sqlext", N: 200000},
